@@ -3,6 +3,7 @@
 From Coq Require Import ZArith List Bool.
 Import ListNotations.
 From Verif Require Import Base.PyValue Base.Decimal Model.Eval Model.Order Model.Exec Proofs.EvalProofs.
+From Verif Require Model.Dates Model.StrFuncs Model.PrimsEnv Gen.SrcEnv Proofs.TypingProofs Proofs.EvalLibProofs.  (* imported at the end *)
 Open Scope Z_scope.
 
 (* The executor's row loop yields exactly one output row per source row whose
@@ -269,3 +270,145 @@ Example C01_source_row_loop_example :
   | _ => None
   end = Some (PList [rowl_pv [VInt 1; VInt 7]; rowl_pv [VInt 3; VInt 7]]).
 Proof. vm_compute. reflexivity. Qed.
+
+(* ---------------------------------------------------------------------------------------------------------------
+   The scalar LIBRARY inside the expression model.  Eval.func / Eval.apply_func carry, besides the ten functions
+   above, the library modelled for C18 (Model/Dates.v, Model/StrFuncs.v): 26 more constructors, each clause calling
+   the model function the C18 theorems are stated over.  Every EFunc node - whatever the function - is NULL as soon
+   as one argument is NULL (the wrapper query_env.function() puts around every plain function, tied to the source by
+   C01_source_function_wrapper above), and is otherwise the library function applied to the argument values. *)
+Import Verif.Proofs.EvalLibProofs.
+
+Theorem C01_library_null_strict : forall r st f args,
+  existsb is_null (map (meval r st) args) = true -> meval r st (EFunc f args) = VNull.
+Proof. exact efunc_null_strict. Qed.
+Print Assumptions C01_library_null_strict.
+
+Theorem C01_library_call : forall r st f args,
+  existsb is_null (map (meval r st) args) = false -> meval r st (EFunc f args) = apply_func f (map (meval r st) args).
+Proof. exact efunc_call. Qed.
+Print Assumptions C01_library_call.
+
+(* "whatever the function": the 36 constructors, none missing from the enumeration the typing table of C04 ranges over *)
+Theorem C01_library_functions : forall f, In f
+  [FAbs; FNeg; FSafediv; FLength; FUpper; FLower; FBool; FIntOfDec; FDecOfInt; FSubstr;
+   FYear; FMonth; FDay; FYearmonth; FQuarter; FWeekday; FDateAdd; FDateDiff; FDateTrunc; FDatePart; FDateBin; FDateYmd; FDate;
+   FStr; FInt; FDecimal; FSplitcomp; FMaxwidth; FRoot; FRoot1; FParent; FLeaf; FRoundInt; FRoundInt1; FRoundDec; FRoundDec1].
+Proof. exact all_func_complete. Qed.
+Print Assumptions C01_library_functions.
+
+(* each library clause is the C18 model function ([lib] / [lib_x] shift the library's exception kinds by
+   Eval.LibError and turn a special Decimal, which [value] cannot hold, into the kind Eval.Unmodelled) *)
+Theorem C01_library_clauses :
+  (forall o, apply_func FYear [VDate o] = lib (Dates.f_year o))
+  /\ (forall o, apply_func FMonth [VDate o] = lib (Dates.f_month o))
+  /\ (forall o, apply_func FDay [VDate o] = lib (Dates.f_day o))
+  /\ (forall o, apply_func FYearmonth [VDate o] = lib (Dates.f_yearmonth o))
+  /\ (forall o, apply_func FQuarter [VDate o] = lib (Dates.f_quarter o))
+  /\ (forall o, apply_func FWeekday [VDate o] = lib (Dates.f_weekday o))
+  /\ (forall o n, apply_func FDateAdd [VDate o; VInt n] = lib (Dates.date_add o n))
+  /\ (forall x y, apply_func FDateDiff [VDate x; VDate y] = lib (Dates.date_diff x y))
+  /\ (forall f o, apply_func FDateTrunc [VStr f; VDate o] = lib (Dates.date_trunc f o))
+  /\ (forall f o, apply_func FDatePart [VStr f; VDate o] = lib (Dates.date_part f o))
+  /\ (forall s d o, apply_func FDateBin [VStr s; VDate d; VDate o] = lib (Dates.date_bin s d o))
+  /\ (forall y m d, apply_func FDateYmd [VInt y; VInt m; VInt d] = lib (StrFuncs.cast_date3 y m d))
+  /\ (forall v, apply_func FDate [v] = lib_x (StrFuncs.cast_date (StrFuncs.XV v)))
+  /\ (forall v, apply_func FStr [v] = lib_x (StrFuncs.cast_str (StrFuncs.XV v)))
+  /\ (forall v, apply_func FInt [v] = lib_x (StrFuncs.cast_int (StrFuncs.XV v)))
+  /\ (forall v, apply_func FDecimal [v] = lib_x (StrFuncs.cast_decimal (StrFuncs.XV v)))
+  /\ (forall s d i, apply_func FSplitcomp [VStr s; VStr d; VInt i] = lib (StrFuncs.f_splitcomp s d i))
+  /\ (forall s n, apply_func FMaxwidth [VStr s; VInt n] = lib (StrFuncs.f_maxwidth s n))
+  /\ (forall a n, apply_func FRoot [VStr a; VInt n] = lib (StrFuncs.f_root a n))
+  /\ (forall a, apply_func FRoot1 [VStr a] = lib (StrFuncs.f_root a 1))
+  /\ (forall a, apply_func FParent [VStr a] = lib (StrFuncs.f_parent a))
+  /\ (forall a, apply_func FLeaf [VStr a] = lib (StrFuncs.f_leaf a))
+  /\ (forall z n, apply_func FRoundInt [VInt z; VInt n] = lib (StrFuncs.f_round_int z n))
+  /\ (forall z, apply_func FRoundInt1 [VInt z] = lib (StrFuncs.f_round_int z 0))
+  /\ (forall d n, apply_func FRoundDec [VDec d; VInt n] = lib (StrFuncs.f_round_dec d n))
+  /\ (forall d, apply_func FRoundDec1 [VDec d] = lib (StrFuncs.f_round_dec d 0)).
+Proof. exact library_clauses. Qed.
+Print Assumptions C01_library_clauses.
+
+Theorem C01_library_kinds_shifted : forall v k, lib v = VErr k <-> exists k', v = VErr k' /\ k = LibError + k'.
+Proof. exact lib_err. Qed.
+Print Assumptions C01_library_kinds_shifted.
+
+(* on the functions that cannot raise, the value of the node is exactly the C18 function's *)
+Theorem C01_library_total_values :
+  (forall o, apply_func FYear [VDate o] = VInt (Dates.year_of o))
+  /\ (forall o, apply_func FMonth [VDate o] = VInt (Dates.month_of o))
+  /\ (forall o, apply_func FDay [VDate o] = VInt (Dates.day_of o))
+  /\ (forall o, apply_func FQuarter [VDate o] = Dates.f_quarter o)
+  /\ (forall o, apply_func FWeekday [VDate o] = Dates.f_weekday o)
+  /\ (forall x y, apply_func FDateDiff [VDate x; VDate y] = VInt (x - y))
+  /\ (forall f o, apply_func FDatePart [VStr f; VDate o] = Dates.date_part f o)
+  /\ (forall y m d, apply_func FDateYmd [VInt y; VInt m; VInt d] = StrFuncs.cast_date3 y m d)
+  /\ (forall s, apply_func FDate [VStr s] = StrFuncs.parse_date s)
+  /\ (forall a n, apply_func FRoot [VStr a; VInt n] = StrFuncs.f_root a n)
+  /\ (forall a, apply_func FParent [VStr a] = StrFuncs.f_parent a)
+  /\ (forall a, apply_func FLeaf [VStr a] = StrFuncs.f_leaf a)
+  /\ (forall z n, apply_func FRoundInt [VInt z; VInt n] = StrFuncs.f_round_int z n).
+Proof. exact library_total_values. Qed.
+Print Assumptions C01_library_total_values.
+
+(* ... and what the CURRENT source of the registered Python function computes (Gen/SrcEnv.v, regenerated on every
+   run; Proofs/SrcEnv.v): the translated body, interpreted on the argument values, returns the value of the node *)
+Import Verif.Model.PrimsEnv Verif.Gen.SrcEnv.
+
+Theorem C01_library_source_dates : forall (call_ref : nat -> list pv -> pv),
+  (forall o, call_function call_ref prim_env env_year [PV (VDate o)] = lift (apply_func FYear [VDate o]))
+  /\ (forall o, call_function call_ref prim_env env_month [PV (VDate o)] = lift (apply_func FMonth [VDate o]))
+  /\ (forall o, call_function call_ref prim_env env_day [PV (VDate o)] = lift (apply_func FDay [VDate o]))
+  /\ (forall o, Dates.valid_ord o = true ->
+        call_function call_ref prim_env env_quarter [PV (VDate o)] = lift (apply_func FQuarter [VDate o]))
+  /\ (forall o, call_function call_ref prim_env env_weekday [PV (VDate o)] = lift (apply_func FWeekday [VDate o]))
+  /\ (forall x y, call_function call_ref prim_env env_date_diff [PV (VDate x); PV (VDate y)]
+                  = lift (apply_func FDateDiff [VDate x; VDate y]))
+  /\ (forall f o, call_function call_ref prim_env env_date_part [pstr f; PV (VDate o)]
+                  = lift (apply_func FDatePart [VStr f; VDate o]))
+  /\ (forall y m d, call_function call_ref prim_env env_date_from_ymd [PInt y; PInt m; PInt d]
+                    = lift (apply_func FDateYmd [VInt y; VInt m; VInt d])).
+Proof.
+  intros call_ref.
+  exact (conj (year_apply_func call_ref) (conj (month_apply_func call_ref) (conj (day_apply_func call_ref)
+        (conj (quarter_apply_func call_ref) (conj (weekday_apply_func call_ref) (conj (date_diff_apply_func call_ref)
+        (conj (date_part_apply_func call_ref) (date_ymd_apply_func call_ref)))))))).
+Qed.
+Print Assumptions C01_library_source_dates.
+
+Theorem C01_library_source_accounts_round : forall (call_ref : nat -> list pv -> pv),
+  (forall a n, call_function call_ref prim_env env_root [pstr a; PInt n] = lift (apply_func FRoot [VStr a; VInt n]))
+  /\ env_root_defaults = [XConst (PInt 1)]          (* root(a) = root(a, 1): the FRoot1 clause *)
+  /\ (forall a, call_function call_ref prim_env env_parent [pstr a] = lift (apply_func FParent [VStr a]))
+  /\ (forall a, call_function call_ref prim_env env_leaf [pstr a] = lift (apply_func FLeaf [VStr a]))
+  /\ (forall z n, call_function call_ref prim_env env_round [PInt z; PInt n] = lift (apply_func FRoundInt [VInt z; VInt n]))
+  /\ env_round_defaults = [XConst (PInt 0)].        (* round(z) = round(z, 0): the FRoundInt1 clause *)
+Proof.
+  intros call_ref.
+  exact (conj (root_apply_func call_ref) (conj root1_default (conj (parent_apply_func call_ref)
+        (conj (leaf_apply_func call_ref) (conj (round_int_apply_func call_ref) round1_default))))).
+Qed.
+Print Assumptions C01_library_source_accounts_round.
+
+(* casts: every BQL value that is neither NULL (the wrapper returns before the call) nor an exception *)
+Theorem C01_library_source_casts : forall (call_ref : nat -> list pv -> pv),
+  (forall v, arg_ok v -> call_function call_ref prim_env env_str [PV v] = lift (apply_func FStr [v]))
+  /\ (forall v, arg_ok v -> call_function call_ref prim_env env_int [PV v] = lift (apply_func FInt [v]))
+  /\ (forall v, arg_ok v -> call_function call_ref prim_env env_date [PV v] = lift (apply_func FDate [v]))
+  /\ (forall v, (exists b, v = VBool b) \/ (exists d, v = VDec d) ->
+        call_function call_ref prim_env env_decimal [PV v] = lift (apply_func FDecimal [v])).
+Proof.
+  intros call_ref.
+  exact (conj (str_apply_func call_ref) (conj (int_apply_func call_ref) (conj (date_apply_func call_ref)
+        (decimal_apply_func call_ref)))).
+Qed.
+Print Assumptions C01_library_source_casts.
+
+(* non-vacuity: length(str(date_part('year', d))) + year(NULL-free d) on a row, a NULL argument, a raising clause *)
+Example C01_library_example :
+  meval [VDate 737425] [] (EFunc FLength [EFunc FStr [EFunc FDatePart [EConst (VStr [121; 101; 97; 114]); ECol 0]]]) = VInt 4
+  /\ meval [VNull] [] (EFunc FYear [ECol 0]) = VNull
+  /\ meval [VDate 737425; VInt 2] [] (EFunc FDateYmd [EFunc FYear [ECol 0]; ECol 1; EConst (VInt 30)]) = VNull
+  /\ meval [VDate 3652059] [] (EFunc FDateAdd [ECol 0; EConst (VInt 1)]) = VErr (LibError + 2)
+  /\ arg_ok (VStr [49; 50]).
+Proof. repeat split; try reflexivity; intros; discriminate. Qed.
